@@ -40,4 +40,6 @@ extern struct op_entry ops_frame[];
 void frame_reset(void);
 extern struct op_entry ops_scale[];
 void scale_reset(void);
+extern struct op_entry ops_find[];
+void find_reset(void);
 #endif
